@@ -20,13 +20,7 @@ from mc.ref import gauss1d, oneel  # noqa: E402
 from mc.ref.num import LD, MP  # noqa: E402
 from mc.ref.shells import RefShell, cart_comps, cart_metric, sph_transform, solid_harmonic_poly  # noqa: E402
 
-FAILS = []
-
-
-def ok(name, cond, detail=""):
-    print(("ok   " if cond else "FAIL ") + name + (" " + str(detail) if detail else ""))
-    if not cond:
-        FAILS.append(name)
+from mc._st import FAILS, ok  # noqa: E402
 
 
 def t_gauss1d_quad():
